@@ -336,8 +336,6 @@ func headerName(e ast.Expr) string {
 	return "unknownShape:" + nsrc(e)
 }
 
-func factsServer()     {}
-func factsMain()       {}
 
 // ---------------------------------------------------------------- cache/dispatcher.go
 func factsDispatcher() {
@@ -768,4 +766,140 @@ func factsCompress() {
 	defInt("lz4InitialFactor", initF)
 	defInt("lz4MaxRatio", maxR)
 	defBool("lz4Grows", grows)
+}
+
+// ---------------------------------------------------------------- server/server.go, main.go, registries
+func hasDefaultMinLength(fd *ast.FuncDecl) bool {
+	if fd == nil {
+		return false
+	}
+	guard, used := false, false
+	ast.Inspect(fd.Body, func(n ast.Node) bool {
+		switch x := n.(type) {
+		case *ast.IfStmt:
+			if nsrc(x.Cond) == "minLength==0" && len(x.Body.List) == 1 && nsrc(x.Body.List[0]) == "minLength=defaultCompressMinLength" {
+				guard = true
+			}
+		case *ast.KeyValueExpr:
+			if nsrc(x.Key) == "compressMinLength" && nsrc(x.Value) == "minLength" {
+				used = true
+			}
+		case *ast.AssignStmt:
+			if nsrc(x) == "s.compressMinLength=minLength" {
+				used = true
+			}
+		}
+		return true
+	})
+	return guard && used
+}
+
+func callsIn(fd *ast.FuncDecl) []string {
+	var calls []string
+	if fd == nil {
+		return calls
+	}
+	ast.Inspect(fd.Body, func(n ast.Node) bool {
+		if c, ok := n.(*ast.CallExpr); ok {
+			calls = append(calls, nsrc(c.Fun))
+		}
+		return true
+	})
+	return calls
+}
+
+func containsStr(xs []string, s string) bool {
+	for _, x := range xs {
+		if x == s {
+			return true
+		}
+	}
+	return false
+}
+
+func factsServer() {
+	section("server/server.go")
+	f := parse("server/server.go")
+	if v, ok := constInt(f, "defaultCompressMinLength"); ok {
+		defInt("defaultCompressMinLength", v)
+	} else {
+		defInt("defaultCompressMinLength", -1)
+	}
+	defBool("newServerAppliesDefaultMinLength", hasDefaultMinLength(funcDecl(f, "", "NewServer")))
+	defBool("updateAppliesDefaultMinLength", hasDefaultMinLength(funcDecl(f, "server", "Update")))
+	// middleware order in server.Start
+	var order []string
+	if fd := funcDecl(f, "server", "Start"); fd != nil {
+		ast.Inspect(fd.Body, func(n ast.Node) bool {
+			if c, ok := n.(*ast.CallExpr); ok && nsrc(c.Fun) == "e.Use" && len(c.Args) == 1 {
+				if in, ok := c.Args[0].(*ast.CallExpr); ok {
+					order = append(order, nsrc(in.Fun))
+				}
+			}
+			return true
+		})
+	}
+	defStrList("middlewareOrder", order)
+	sr := callsIn(funcDecl(f, "servers", "Reset"))
+	defBool("serversResetDeletesAbsent", containsStr(sr, "util.MapDelete"))
+	defBool("serversResetUpdatesExisting", containsStr(sr, "s.Update") && containsStr(sr, "NewServer"))
+}
+
+func factsMain() {
+	section("main.go update() and the registries' Reset functions")
+	f := parse("main.go")
+	var order []string
+	if fd := funcDecl(f, "", "update"); fd != nil {
+		for _, c := range callsIn(fd) {
+			switch c {
+			case "compress.Reset", "cache.ResetDispatchers", "upstream.ResetWithOnStats", "upstream.Reset", "location.Reset", "server.Reset", "server.Start":
+				order = append(order, c)
+			}
+		}
+	}
+	defStrList("reloadOrder", order)
+	cr := callsIn(funcDecl(parse("compress/compress.go"), "compressSrvs", "Reset"))
+	defBool("compressResetDeletesAbsent", containsStr(cr, "util.MapDelete") || containsStr(cr, "cs.m.Delete"))
+	dr := funcDecl(parse("cache/dispatcher.go"), "dispatchers", "Reset")
+	dc := callsIn(dr)
+	keeps := false
+	if dr != nil {
+		ast.Inspect(dr.Body, func(n ast.Node) bool {
+			if is, ok := n.(*ast.IfStmt); ok && nsrc(is.Cond) == "!ok" {
+				for _, c := range callsIn(&ast.FuncDecl{Body: is.Body}) {
+					if c == "ds.m.Store" {
+						keeps = true
+					}
+				}
+			}
+			return true
+		})
+	}
+	defBool("dispatchersResetDeletesAbsent", containsStr(dc, "util.MapDelete"))
+	defBool("dispatchersResetKeepsExisting", keeps)
+	ur := funcDecl(parse("upstream/upstream.go"), "upstreamServers", "Reset")
+	uc := callsIn(ur)
+	// store-before-destroy: index of us.m.Store before currentServer.Destroy
+	si, di := -1, -1
+	for i, c := range uc {
+		if c == "us.m.Store" && si < 0 {
+			si = i
+		}
+		if c == "currentServer.Destroy" && di < 0 {
+			di = i
+		}
+	}
+	defBool("upstreamsResetDeletesAbsent", containsStr(uc, "util.MapDelete"))
+	defBool("upstreamsResetStoresBeforeDestroy", si >= 0 && di > si)
+	ls := funcDecl(parse("location/location.go"), "Locations", "Set")
+	swaps := 0
+	if ls != nil {
+		ast.Inspect(ls.Body, func(n ast.Node) bool {
+			if a, ok := n.(*ast.AssignStmt); ok && len(a.Lhs) == 1 && nsrc(a.Lhs[0]) == "ls.locations" {
+				swaps++
+			}
+			return true
+		})
+	}
+	defBool("locationsSetSingleSwap", swaps == 1)
 }
